@@ -28,7 +28,7 @@ def run(chk):
     cs = CaseSet("c15")
     plan = []
     for wi in range(14 if quick else 150):
-        wj, sph = area_world(rng, nfeat=rng.randint(1, 3), plumes=0.0, random_models=True, cross=False)
+        wj, sph = area_world(rng, nfeat=rng.randint(1, 3), plumes=0.25, random_models=True, cross=False)
         wj.pop("force surface temperature", None)
         if wi % 3 == 0:
             # a single continental plate with one random composition model: every painted value is attributable
